@@ -2,7 +2,8 @@
    closed set of links (cycles of any length, and chains longer than the budget) end in the error outcome; concrete
    witnesses for the findings F11, F16, F17, F18, F19. *)
 From Coq Require Import NArith Lia List Bool Ascii String Arith.
-From AV Require Import lib.Str model.C10_manifest model.C10_ranges model.C10_fs model.C10_gomanifest model.C17_model.
+From AV Require Import lib.Str model.C10_manifest model.C10_ranges model.C10_fs model.C10_gomanifest model.C17_model
+  proofs.C10_gm_proofs.
 Import ListNotations.
 Local Open Scope string_scope.
 
@@ -39,8 +40,6 @@ Qed.
 (* the conditions under which walkHostFS(dest, src) looks at the host entry for src *)
 Record host_entry (cf : config) (src : string) (pos : list string) (n : node) : Prop := {
   he_inside : has_prefix_dir (c_ctr cf) src = true;
-  he_len : Nat.ltb (String.length src) (String.length (c_ctr cf)) = false;
-  he_suffix : (String.eqb (drop (String.length (c_ctr cf)) src) "" || is_abs (drop (String.length (c_ctr cf)) src)) = true;
   he_lstat : host_lstat cf (drop (String.length (c_ctr cf)) src) = LNode pos n;
   he_below : no_mounts_below cf src
 }.
@@ -54,23 +53,23 @@ Theorem special_file_fails : forall cf b d st dest src below pos,
   host_entry cf src pos Special ->
   snd (walk cf b (S d) st dest src false below) = SErr.
 Proof.
-  intros cf b d st dest src below pos [H1 H2 H3 H4 H5].
+  intros cf b d st dest src below pos [H1 H4 H5].
   destruct b; cbn [walk]; destruct below; rewrite ?walk_mounts_below_none by exact H5; cbn [bind ok];
-    rewrite H2, H1, H3, H4; reflexivity.
+    rewrite H1, H4; reflexivity.
 Qed.
 
 (* escaping_link_fails: a symlink whose (lexically computed) target is in no mount and under no secret *)
-Definition lexical (src target : string) : string := if is_abs target then target else fp_join [fp_dir src; target].
+Definition lexical (src target : string) : string := if is_abs target then path_clean target else fp_join [fp_dir src; target].
 Theorem escaping_link_fails : forall cf b d st dest src below pos target,
   host_entry cf src pos (Link target) ->
   find_mount cf (lexical src target) = None -> under_secret cf (lexical src target) 0 = false ->
   snd (walk cf b (S d) st dest src false below) = SErr.
 Proof.
-  intros cf b d st dest src below pos target [H1 H2 H3 H4 H5] Hm Hs.
+  intros cf b d st dest src below pos target [H1 H4 H5] Hm Hs.
   assert (Hfuel : exists k, depth_fuel cf = S k) by (unfold depth_fuel; exists (height 64 (c_host cf) + 3)%nat; lia).
   destruct Hfuel as [k Hk].
   destruct b as [|b']; cbn [walk]; destruct below; rewrite ?walk_mounts_below_none by exact H5; cbn [bind ok];
-    rewrite H2, H1, H3, H4; try reflexivity.
+    rewrite H1, H4; try reflexivity.
   all: fold (lexical src target); rewrite Hk; apply escaping_path_fails; assumption.
 Qed.
 
@@ -85,12 +84,12 @@ Theorem cycle_fails : forall cf (S : string -> Prop), link_closed cf S ->
   forall b d st dest src below, S src -> snd (walk cf b (Datatypes.S (Datatypes.S d)) st dest src true below) = SErr.
 Proof.
   intros cf S Hc. induction b as [|b IH]; intros d st dest src below HS;
-    destruct (Hc src HS) as [(rm & Hf & Hu & He & Hk) (pos & target & [H1 H2 H3 H4 H5] & HS')].
+    destruct (Hc src HS) as [(rm & Hf & Hu & He & Hk) (pos & target & [H1 H4 H5] & HS')].
   - cbn [walk]. rewrite Hf, Hu, He, Hk. cbn [negb andb].
-    destruct below; rewrite ?walk_mounts_below_none by exact H5; cbn [bind ok]; rewrite H2, H1, H3, H4; reflexivity.
+    destruct below; rewrite ?walk_mounts_below_none by exact H5; cbn [bind ok]; rewrite H1, H4; reflexivity.
   - assert (Hfuel : depth_fuel cf = Datatypes.S (Datatypes.S (height 64 (c_host cf) + 2))) by (unfold depth_fuel; lia).
     cbn [walk]. rewrite Hf, Hu, He, Hk. cbn [negb andb].
-    destruct below; rewrite ?walk_mounts_below_none by exact H5; cbn [bind ok]; rewrite H2, H1, H3, H4.
+    destruct below; rewrite ?walk_mounts_below_none by exact H5; cbn [bind ok]; rewrite H1, H4.
     all: fold (lexical src target); rewrite Hfuel; apply IH; exact HS'.
 Qed.
 
@@ -105,12 +104,12 @@ Theorem chain_too_long_fails : forall cf b d st dest src below,
   chain cf (Datatypes.S b) src -> snd (walk cf b (Datatypes.S (Datatypes.S d)) st dest src true below) = SErr.
 Proof.
   intros cf. induction b as [|b IH]; intros d st dest src below
-    [(rm & Hf & Hu & He & Hk) (pos & target & [H1 H2 H3 H4 H5] & Hrest)].
+    [(rm & Hf & Hu & He & Hk) (pos & target & [H1 H4 H5] & Hrest)].
   - cbn [walk]. rewrite Hf, Hu, He, Hk. cbn [negb andb].
-    destruct below; rewrite ?walk_mounts_below_none by exact H5; cbn [bind ok]; rewrite H2, H1, H3, H4; reflexivity.
+    destruct below; rewrite ?walk_mounts_below_none by exact H5; cbn [bind ok]; rewrite H1, H4; reflexivity.
   - assert (Hfuel : depth_fuel cf = Datatypes.S (Datatypes.S (height 64 (c_host cf) + 2))) by (unfold depth_fuel; lia).
     cbn [walk]. rewrite Hf, Hu, He, Hk. cbn [negb andb].
-    destruct below; rewrite ?walk_mounts_below_none by exact H5; cbn [bind ok]; rewrite H2, H1, H3, H4.
+    destruct below; rewrite ?walk_mounts_below_none by exact H5; cbn [bind ok]; rewrite H1, H4.
     all: fold (lexical src target); rewrite Hfuel; apply IH; exact Hrest.
 Qed.
 
@@ -155,9 +154,9 @@ Proof.
   - vm_compute. reflexivity.
 Qed.
 
-(* F17: a second tmp mount and a link into it: panic *)
+(* the input of the former finding F17 (commit d81649d): a link into a second tmp mount now fails cleanly *)
 Definition f17_cfg : config := mk (Dir [("l", Link "/tmp/x")]) [("/tmp", tmpm)] [].
-Lemma f17_witness : fst (copy_model f17_cfg nostore) = RPanic /\ resolve f17_cfg nostore = SpecFail.
+Lemma f17_repaired : fst (copy_model f17_cfg nostore) = RErr /\ resolve f17_cfg nostore = SpecFail.
 Proof. split; vm_compute; reflexivity. Qed.
 
 (* F18: a link to a file that is a json mount inside the output directory *)
@@ -168,13 +167,26 @@ Lemma f18_witness :
   fst (copy_model f18_cfg nostore) = RErr.
 Proof. split; vm_compute; reflexivity. Qed.
 
-(* F19: a secret below the output directory, reached by an absolute link target that is not clean, is saved *)
+(* the input of the former finding F19 (commit 05c563f): the unclean absolute target is cleaned, the secret omitted *)
 Definition f19_cfg : config :=
   mk (Dir [("l", Link "/ctr/outdir/./sec1"); ("sec1", File "TOP-SECRET")]) [] ["/ctr/outdir/sec1"].
-Lemma f19_witness :
-  resolve f19_cfg nostore = SpecOk [] /\
-  fst (copy_model f19_cfg nostore) = ROk [("./l", false, "TOP-SECRET")].
+Lemma f19_repaired : resolve f19_cfg nostore = SpecOk [] /\ fst (copy_model f19_cfg nostore) = ROk [].
 Proof. split; vm_compute; reflexivity. Qed.
+
+(* F16, secret form: the secret is reached through a symlinked directory; the copier's string test does not see it *)
+Definition f16s_cfg : config :=
+  mk (Dir [("d", Link "sub"); ("l", Link "d/sec"); ("sub", Dir [("sec", File "TOP-SECRET")])]) [] ["/ctr/outdir/sub/sec"].
+Lemma f16_secret_witness :
+  (exists l, resolve f16s_cfg nostore = SpecOk l /\ forall e, In e l -> snd e <> "TOP-SECRET") /\
+  (exists l, fst (copy_model f16s_cfg nostore) = ROk l /\ In ("./l", false, "TOP-SECRET") l) /\
+  w_f16 (snd (copy_model f16s_cfg nostore)) = true.
+Proof.
+  split; [|split].
+  - eexists. split; [vm_compute; reflexivity|]. intros e Hin. cbn in Hin.
+    repeat (destruct Hin as [<-|Hin]; [cbn; discriminate|]). contradiction.
+  - eexists. split; [vm_compute; reflexivity|]. cbn. tauto.
+  - vm_compute. reflexivity.
+Qed.
 
 (* the hypotheses of cycle_fails are satisfiable: the two-link cycle a -> b, b -> a *)
 Definition cyc_cfg : config := mk (Dir [("a", Link "b"); ("b", Link "a")]) [] [].
@@ -195,3 +207,34 @@ Proof.
 Qed.
 Lemma cyc_copy_fails : fst (copy_model cyc_cfg nostore) = RErr.
 Proof. vm_compute. reflexivity. Qed.
+
+(* ---------- the copier never panics (this was refuted by finding F17 until commit d81649d; the Extract panic of
+   C10's finding F14 is excluded by gm_extract_no_panic) ---------- *)
+Lemma bind_np (r : wres) f : snd r <> SPanic -> (forall st, snd (f st) <> SPanic) -> snd (bind r f) <> SPanic.
+Proof. destruct r as [st []]; cbn; auto. Qed.
+Lemma fold_np {A} (g : wstate -> A -> wres) : (forall st x, snd (g st x) <> SPanic) ->
+  forall l r, snd r <> SPanic -> snd (fold_left (fun r x => bind r (fun st => g st x)) l r) <> SPanic.
+Proof.
+  intros Hg. induction l as [|x l IH]; intros r Hr; [exact Hr|]. cbn [fold_left].
+  apply IH. apply bind_np; [exact Hr|]. intros st. apply Hg.
+Qed.
+Lemma walk_mount_static_np cf st dest src rm : snd (walk_mount_static cf st dest src rm) <> SPanic.
+Proof.
+  unfold walk_mount_static. destruct rm as [root m].
+  destruct (m_exclude m); [discriminate|].
+  destruct (negb (String.eqb (m_kind m) "collection")); [discriminate|].
+  destruct (negb (m_writable m)); [|discriminate].
+  pose proof (gm_extract_no_panic (m_text m) (fp_join ["."; m_path m; drop (String.length root) src]) dest) as H.
+  destruct (gm_extract _ _ _); try discriminate. congruence.
+Qed.
+Lemma walk_mounts_below_np cf wm st dest src : (forall st d m, snd (wm st d m) <> SPanic) ->
+  snd (walk_mounts_below cf wm st dest src) <> SPanic.
+Proof.
+  intros Hwm. unfold walk_mounts_below.
+  apply (fold_np (fun st rm => if has_prefix (src ++ "/") (fst rm)
+                               then if copy_regular (snd rm) then ok st
+                                    else wm st (dest ++ drop (String.length src) (fst rm)) (fst rm)
+                               else ok st)); [|discriminate].
+  intros st' rm. destruct (has_prefix _ _); [|discriminate]. destruct (copy_regular _); [discriminate|apply Hwm].
+Qed.
+
